@@ -11,4 +11,6 @@ for p in "$@"; do
   echo "== check $p with patch"; (cd /verif && ./check $p 2>/dev/null | grep -E "VIOLATION|: ok|FAIL" | head -4)
 done
 git -C /repo checkout -- . ; git -C /repo status --short
+# the checks above regenerated coq/Gen/*.v from the patched tree: regenerate them from the clean one
+for t in /verif/translator/t[0-9]*.py; do /venv/bin/python $t >/dev/null 2>&1; done
 rm -f /verif/replays/*.json
